@@ -16,6 +16,14 @@
  *   RDSHIM_LOG  = file; appended: "D <hex path of the directory>" followed by one "E <hex name>" per entry
  *                 in the order in which they are handed to the caller ("." and ".." included).
  *
+ *   RDSHIM_INOMAP = file with lines "<dev> <ino> <newdev> <newino>" (unsigned decimal, 64 bit): every stat result
+ *                 (stat / lstat / fstat / fstatat / statx and their 64 / __x aliases) whose (st_dev, st_ino) is
+ *                 listed is handed to the caller with (newdev, newino) instead; d_ino of a directory entry is
+ *                 remapped with the device of the directory it was read from.  The test passes a bijection on
+ *                 the objects of the packed tree (equal stays equal: hard links stay hard links, a mount point
+ *                 stays one); everything not listed passes through.  Every remapping that was applied is
+ *                 logged once to RDSHIM_LOG as "I <dev> <ino> <newdev> <newino>".
+ *
  * The whole directory is slurped on the first readdir of a DIR*; an error of the real readdir is
  * delivered after the buffered entries with its errno.  Single-threaded use only (the scan is). */
 #define _GNU_SOURCE
@@ -26,6 +34,10 @@
 #include <stdio.h>
 #include <stdlib.h>
 #include <string.h>
+#include <fcntl.h>
+#include <sys/stat.h>
+#include <sys/sysmacros.h>
+#include <sys/types.h>
 #include <unistd.h>
 
 struct dbuf {
@@ -70,6 +82,243 @@ static void hexout(FILE *f, const char *s)
 		fputc('-', f);
 	for (; *s; ++s)
 		fprintf(f, "%02x", (unsigned char)*s);
+}
+
+/* ---------------------------------------------------------------------------------------------
+ * inode / device number remapping
+ * ------------------------------------------------------------------------------------------- */
+
+struct imap {
+	uint64_t dev, ino, ndev, nino;
+	int logged;
+};
+
+static struct imap *imap;
+static size_t imap_count;
+static int imap_state;		/* 0 = not loaded, 1 = loaded (possibly empty), 2 = loading */
+
+static int cmp_imap(const void *a, const void *b)
+{
+	const struct imap *x = a, *y = b;
+
+	if (x->dev != y->dev)
+		return x->dev < y->dev ? -1 : 1;
+	return x->ino < y->ino ? -1 : (x->ino > y->ino ? 1 : 0);
+}
+
+static void imap_load(void)
+{
+	const char *path = getenv("RDSHIM_INOMAP");
+	char line[256];
+	size_t cap = 0;
+	FILE *f;
+
+	imap_state = 2;
+	if (path != NULL && (f = fopen(path, "r")) != NULL) {
+		while (fgets(line, sizeof(line), f) != NULL) {
+			unsigned long long a, b, c, d;
+
+			if (sscanf(line, "%llu %llu %llu %llu", &a, &b, &c, &d) != 4)
+				continue;
+			if (imap_count == cap) {
+				cap = cap ? cap * 2 : 64;
+				imap = realloc(imap, cap * sizeof(imap[0]));
+				if (imap == NULL)
+					abort();
+			}
+			imap[imap_count].dev = a;
+			imap[imap_count].ino = b;
+			imap[imap_count].ndev = c;
+			imap[imap_count].nino = d;
+			imap[imap_count].logged = 0;
+			++imap_count;
+		}
+		fclose(f);
+		qsort(imap, imap_count, sizeof(imap[0]), cmp_imap);
+	}
+	imap_state = 1;
+}
+
+static void remap(uint64_t *dev, uint64_t *ino)
+{
+	struct imap key, *e;
+
+	if (imap_state == 0)
+		imap_load();
+	if (imap_state != 1 || imap_count == 0)
+		return;
+	key.dev = *dev;
+	key.ino = *ino;
+	e = bsearch(&key, imap, imap_count, sizeof(imap[0]), cmp_imap);
+	if (e == NULL)
+		return;
+	if (!e->logged) {
+		const char *path = getenv("RDSHIM_LOG");
+		FILE *f = path ? fopen(path, "a") : NULL;
+
+		e->logged = 1;
+		if (f != NULL) {
+			fprintf(f, "I %llu %llu %llu %llu\n", (unsigned long long)e->dev, (unsigned long long)e->ino,
+				(unsigned long long)e->ndev, (unsigned long long)e->nino);
+			fclose(f);
+		}
+	}
+	*dev = e->ndev;
+	*ino = e->nino;
+}
+
+static void remap_stat(struct stat *sb)
+{
+	uint64_t d = sb->st_dev, i = sb->st_ino;
+
+	remap(&d, &i);
+	sb->st_dev = d;
+	sb->st_ino = i;
+}
+
+int fstatat(int dirfd, const char *path, struct stat *sb, int flags)
+{
+	static int (*real)(int, const char *, struct stat *, int);
+	int ret, saved;
+
+	if (real == NULL)
+		real = dlsym(RTLD_NEXT, "fstatat");
+	if (real == NULL) {
+		errno = ENOSYS;
+		return -1;
+	}
+	ret = real(dirfd, path, sb, flags);
+	if (ret == 0) {
+		saved = errno;
+		remap_stat(sb);
+		errno = saved;
+	}
+	return ret;
+}
+
+int fstat(int fd, struct stat *sb)
+{
+	static int (*real)(int, struct stat *);
+	int ret, saved;
+
+	if (real == NULL)
+		real = dlsym(RTLD_NEXT, "fstat");
+	if (real == NULL) {
+		errno = ENOSYS;
+		return -1;
+	}
+	ret = real(fd, sb);
+	if (ret == 0) {
+		saved = errno;
+		remap_stat(sb);
+		errno = saved;
+	}
+	return ret;
+}
+
+int stat(const char *path, struct stat *sb)
+{
+	return fstatat(AT_FDCWD, path, sb, 0);
+}
+
+int lstat(const char *path, struct stat *sb)
+{
+	return fstatat(AT_FDCWD, path, sb, AT_SYMLINK_NOFOLLOW);
+}
+
+/* struct stat and struct stat64 are the same type on the LP64 targets this runs on */
+int fstatat64(int dirfd, const char *path, struct stat64 *sb, int flags)
+{
+	return fstatat(dirfd, path, (struct stat *)sb, flags);
+}
+
+int fstat64(int fd, struct stat64 *sb)
+{
+	return fstat(fd, (struct stat *)sb);
+}
+
+int stat64(const char *path, struct stat64 *sb)
+{
+	return fstatat(AT_FDCWD, path, (struct stat *)sb, 0);
+}
+
+int lstat64(const char *path, struct stat64 *sb)
+{
+	return fstatat(AT_FDCWD, path, (struct stat *)sb, AT_SYMLINK_NOFOLLOW);
+}
+
+/* what binaries built against glibc < 2.33 call */
+int __xstat(int ver, const char *path, struct stat *sb)
+{
+	(void)ver;
+	return fstatat(AT_FDCWD, path, sb, 0);
+}
+
+int __lxstat(int ver, const char *path, struct stat *sb)
+{
+	(void)ver;
+	return fstatat(AT_FDCWD, path, sb, AT_SYMLINK_NOFOLLOW);
+}
+
+int __fxstat(int ver, int fd, struct stat *sb)
+{
+	(void)ver;
+	return fstat(fd, sb);
+}
+
+int __fxstatat(int ver, int dirfd, const char *path, struct stat *sb, int flags)
+{
+	(void)ver;
+	return fstatat(dirfd, path, sb, flags);
+}
+
+int __xstat64(int ver, const char *path, struct stat64 *sb)
+{
+	(void)ver;
+	return fstatat(AT_FDCWD, path, (struct stat *)sb, 0);
+}
+
+int __lxstat64(int ver, const char *path, struct stat64 *sb)
+{
+	(void)ver;
+	return fstatat(AT_FDCWD, path, (struct stat *)sb, AT_SYMLINK_NOFOLLOW);
+}
+
+int __fxstat64(int ver, int fd, struct stat64 *sb)
+{
+	(void)ver;
+	return fstat(fd, (struct stat *)sb);
+}
+
+int __fxstatat64(int ver, int dirfd, const char *path, struct stat64 *sb, int flags)
+{
+	(void)ver;
+	return fstatat(dirfd, path, (struct stat *)sb, flags);
+}
+
+int statx(int dirfd, const char *path, int flags, unsigned int mask, struct statx *sx)
+{
+	static int (*real)(int, const char *, int, unsigned int, struct statx *);
+	int ret, saved;
+
+	if (real == NULL)
+		real = dlsym(RTLD_NEXT, "statx");
+	if (real == NULL) {
+		errno = ENOSYS;
+		return -1;
+	}
+	ret = real(dirfd, path, flags, mask, sx);
+	if (ret == 0) {
+		uint64_t d = makedev(sx->stx_dev_major, sx->stx_dev_minor), i = sx->stx_ino;
+
+		saved = errno;
+		remap(&d, &i);
+		sx->stx_dev_major = major(d);
+		sx->stx_dev_minor = minor(d);
+		sx->stx_ino = i;
+		errno = saved;
+	}
+	return ret;
 }
 
 static void permute(struct dbuf *b)
@@ -157,11 +406,22 @@ static void log_dir(const struct dbuf *b)
 static struct dbuf *slurp(DIR *dir)
 {
 	struct dbuf *b = calloc(1, sizeof(*b));
+	static int (*real_fstat)(int, struct stat *);
+	struct stat dsb;
+	uint64_t ddev = 0;
+	int have_dev = 0;
 	size_t cap = 0;
 
 	if (b == NULL)
 		abort();
 	b->dir = dir;
+	/* the device of the directory itself, unmapped: d_ino is an inode number on that device */
+	if (real_fstat == NULL)
+		real_fstat = dlsym(RTLD_NEXT, "fstat");
+	if (real_fstat != NULL && real_fstat(dirfd(dir), &dsb) == 0) {
+		ddev = dsb.st_dev;
+		have_dev = 1;
+	}
 	for (;;) {
 		struct dirent *e, *c;
 
@@ -181,6 +441,12 @@ static struct dbuf *slurp(DIR *dir)
 		if (c == NULL)
 			abort();
 		memcpy(c, e, e->d_reclen < sizeof(*c) ? e->d_reclen : sizeof(*c));
+		if (have_dev) {
+			uint64_t d = ddev, i = c->d_ino;
+
+			remap(&d, &i);
+			c->d_ino = i;
+		}
 		b->ents[b->count++] = c;
 	}
 	permute(b);
